@@ -7,6 +7,7 @@ import (
 	"time"
 
 	"github.com/miekg/dns"
+	"github.com/semihalev/sdns/server"
 
 	"verifsim/kit"
 	"verifsim/world"
@@ -69,5 +70,38 @@ func TestSmokeRes(t *testing.T) {
 				t.Log(l)
 			}
 		}
+	})
+}
+
+func TestSmokeIng(t *testing.T) {
+	if os.Getenv("VERIF_SMOKE") == "" {
+		t.Skip()
+	}
+	kit.T = t
+	kit.Bubble(func() {
+		tr := &kit.Trace{Keep: true}
+		g, err := world.NewIng(smokeSpec(), world.IngSpec{Workers: 2, Queue: 4, Sockets: 2, NoRawConn: os.Getenv("VERIF_PORTABLE") != ""}, 1, tr)
+		if err != nil {
+			t.Fatal(err)
+		}
+		defer g.Close()
+		kit.SleepSettle(5 * time.Second)
+		for i, name := range []string{"www.example.com.", "www.example.com.", "nx.example.com.", "www.unsigned.com."} {
+			q := new(dns.Msg)
+			q.SetQuestion(name, dns.TypeA)
+			q.Id = uint16(100 + i)
+			q.SetEdns0(1232, true)
+			b, _ := q.Pack()
+			g.Send(i%2, netip.MustParseAddrPort("10.1.1.1:4000"), b)
+			kit.SleepSettle(3 * time.Second)
+		}
+		for _, s := range g.K.Out {
+			m := new(dns.Msg)
+			err := m.Unpack(s.Data)
+			t.Logf("at %v sock %d -> %v batch=%v id=%d rcode=%s ans=%d err=%v", s.At, s.Sock, s.To, s.Batch, m.Id, dns.RcodeToString[m.Rcode], len(m.Answer), err)
+		}
+		t.Logf("kernel: batchrecv=%d singlerecv=%d batchsends=%d direct=%d drops=%d", g.K.BatchRecv, g.K.SingleRecv, g.K.BatchSends, g.K.DirectSends, g.K.KernelDrops)
+		t.Logf("counters: %v", server.VerifUDPCounters())
+		t.Logf("shutdown: %v", g.Shutdown())
 	})
 }
